@@ -39,6 +39,7 @@ TSReq ==
         /\ o.opened => /\ o.status = 101 /\ o.acceptOk /\ o.state = "OPEN" /\ ~o.dropped
                        /\ o.proto = (IF r.onconn = "ok-listed" THEN "listed" ELSE "")     \* only a subprotocol from the client's list
                        /\ o.extsWithinOffer
+                       /\ o.customHdrOk       \* headers the application's onConnect asked for are in the response
         \* refused: an HTTP error (or, for a plain HTTP request with webStatus, a status page / redirect) and the
         \* connection is not left half-open
         \* (o.late: only dropped by the opening-handshake timer - tolerated solely when the *application's* onConnect
